@@ -170,10 +170,15 @@ def witness_cases(draw, pattern):
     hist = draw(st.integers(11, 20))
     base = draw(st.sampled_from((2000, 4000, 40000)))  # ticks
     rows, pc = [], base
-    for _ in range(hist):
+    # the last five candles may trade in a much narrower (or wider) range than those before them: the documented
+    # 5-candle window of 'near' and the 10-candle windows of the other clauses then disagree by a clear factor
+    regime = draw(st.sampled_from((1, 1, 6, 6, -6)))
+    for k in range(hist):
         body = draw(st.integers(10, 60)) * draw(st.sampled_from((1, -1)))
         o, c = pc, pc + body
         up, dn = draw(st.integers(5, 40)), draw(st.integers(5, 40))
+        if (regime > 1 and k < hist - 5) or (regime < 0 and k >= hist - 5):
+            up, dn = up * abs(regime), dn * abs(regime)
         rows.append([o, max(o, c) + up, min(o, c) - dn, c])
         pc = c
     m = draw(st.sampled_from((2, 2, 3, 4)))
